@@ -137,4 +137,10 @@ def replay_input(d):
 def replay_known(ctx, k):
     if k['id'] == 'C05-matching-odd-cycle':
         return _check_matching(k['witness']['graph']) is not None
+    if k['id'] == 'C05-circulene':
+        import selfies as sf
+        from harness import enc
+        sf.set_semantic_constraints(enc.relaxed_table())
+        r = enc.analyze(k['witness']['smiles'])
+        return any(c == 'C05:complete' for c, _ in r)
     return False
